@@ -119,7 +119,9 @@ class C12(Prop):
                 c = copy.deepcopy(base)
                 cap = r.choice([2, 3])
                 c["knobs"]["retry_cap"] = cap
-                c["faults"] = [{"op": i, "seam": "rhs", "at": k + j, "kind": "spike", "amp": 1e6} for j in range(40 * (cap + 2))]
+                c["knobs"]["retry_cap_ops"] = [i]         # the resumed call has the library's full retry budget again
+                amp_ = "nan" if r.random() < 0.5 else 1e6          # huge but finite slopes, or non-finite ones
+                c["faults"] = [{"op": i, "seam": "rhs", "at": k + j, "kind": "spike", "amp": amp_} for j in range(40 * (cap + 2))]
                 c["tolerance_failure"] = True
                 out.append(c)
         if points:
@@ -258,13 +260,18 @@ class C12(Prop):
             # ---------------- non-failing integrate
             if snap["exc"] is not None:
                 # not caused by an injected fault here: tolerance exhaustion etc. is a legal outcome only if the twin does the same
-                small_cap = scn.get("knobs", {}).get("retry_cap") is not None and any(type(x).__name__ == "FailedToMeetTolerances" for x in cause_chain(snap["exc"]))
+                cap_ops = scn.get("knobs", {}).get("retry_cap_ops")
+                small_cap = scn.get("knobs", {}).get("retry_cap") is not None and (cap_ops is None or i in cap_ops) \
+                    and any(type(x).__name__ == "FailedToMeetTolerances" for x in cause_chain(snap["exc"]))
                 if small_cap:
                     continue        # with the retry-cap knob a resumed step may legitimately exhaust its (2-3) retries
                 spiked_state = any(fr["fault"]["kind"] == "spike" for fr in w.fired) and \
-                    float(np.max(np.abs(np.asarray(w.snaps[i - 1]["y"][-1], dtype=np.float64)))) > 1e3 * (1.0 + float(np.max(np.abs(np.asarray(w.snaps[0]["y"][0], dtype=np.float64)))))
+                    not (float(np.max(np.abs(np.asarray(w.snaps[i - 1]["y"][-1], dtype=np.float64)))) <= 1e3 * (1.0 + float(np.max(np.abs(np.asarray(w.snaps[0]["y"][0], dtype=np.float64))))))
                 if spiked_state:
                     continue        # an accepted step computed from spiked slopes left a state of 1e5..1e6: the problem, not the library, fails from there
+                if any(fr["fault"]["kind"] == "spike" and fr["fault"].get("amp") != "nan" for fr in w.fired):
+                    continue        # a wrong but FINITE slope cannot be told from a right one: whatever was computed (and cached) from it is the rhs's doing;
+                                    # non-finite slopes can be told, and a call made after they are gone has to work
                 if tsnap is None or tsnap["exc"] is None or diverged:
                     bad("resume_completes", "op %d raised %s without an injected fault (%s)" % (i, snap["exc_type"], str(snap["exc"].__cause__)[:120]), i)
                 continue
